@@ -23,6 +23,7 @@ import common  # noqa: E402
 
 VERIF = common.VERIF
 LEAN = os.path.join(VERIF, "lean")
+OUT = os.environ.get("VERIF_OUT", VERIF)     # evidence/replay root (scratch runs against seeded changes redirect it)
 STD_AXIOMS = {"propext", "Classical.choice", "Quot.sound"}
 FORBIDDEN = re.compile(r"\b(sorry|admit|native_decide|bv_decide|implemented_by|maxHeartbeats\s+0)\b|^\s*axiom\s|\bunsafe\s")
 
@@ -302,7 +303,7 @@ def main():
         "wall_s": round(time.time() - t0, 2),
         "violations": violations,
     }
-    common.write_json(os.path.join(VERIF, "evidence", f"{pid}.json"), ev)
+    common.write_json(os.path.join(OUT, "evidence", f"{pid}.json"), ev)
 
     # ------------------------------------------------------------------ verdict
     for kid, (kf, cnt) in sorted(known.items()):
@@ -315,23 +316,23 @@ def main():
                 c = mod.shrink(c, f)
             except Exception:
                 pass
-        path = os.path.join(VERIF, "evidence", "replay", f"{pid}-{common.case_hash(c)}.json")
+        path = os.path.join(OUT, "evidence", "replay", f"{pid}-{common.case_hash(c)}.json")
         common.write_json(path, {"property": pid, "case": c, "failure": f, "seed": seed, "tier": tier,
                                  "other_failures": len(fails) - 1})
         print(f"FAIL {json.dumps(f, default=str)[:500]}")
-        print(f"VIOLATION property={pid} replay={os.path.relpath(path, VERIF)}")
+        print(f"VIOLATION property={pid} replay={os.path.relpath(path, OUT)}")
         rc = 1
     elif diffs or proofs["problems"]:
         what = {"property": pid, "seed": seed, "tier": tier,
                 "no_longer_checks": proofs["problems"] or ["correspondence stream " + diffs[0][0].get("stream", "?")],
                 "case": diffs[0][1] if diffs else None, "difference": diffs[0][0] if diffs else None,
                 "searched_cases": len(results)}
-        path = os.path.join(VERIF, "evidence", "replay", f"{pid}-nofail-{common.case_hash(what)}.json")
+        path = os.path.join(OUT, "evidence", "replay", f"{pid}-nofail-{common.case_hash(what)}.json")
         common.write_json(path, what)
         print("BROKEN " + json.dumps(what["no_longer_checks"], default=str)[:500])
         if diffs:
             print("DIFF " + json.dumps(diffs[0][0], default=str)[:500])
-        print(f"VIOLATION property={pid} replay={os.path.relpath(path, VERIF)} no-failing-input-found")
+        print(f"VIOLATION property={pid} replay={os.path.relpath(path, OUT)} no-failing-input-found")
         rc = 1
     elif infra and len(infra) > max(2, len(results) // 50):
         print(f"INCONCLUSIVE property={pid}: {len(infra)} infrastructure errors, e.g. {infra[0][0]}")
